@@ -3,36 +3,44 @@ import PsyVerif.Lemmas.RegionDataSem
 
 Model (`Model/RegionData.lean`): `inputs/outputs/inOut` = `CallTreeUtils.get_in_out_parameters`
 on the ordered access list `sacc` = `VariablesAccessInfo` (assignment, IF, DO incl. dependent
-bounds, DO WHILE: condition then body); `extractTrans`/`inOutItems` = `ExtractTrans` refusal of
-CodeBlock/Return regions and the lists where CodeBlocks contribute no access;
-`inputsCalls/outputsCalls` = the merge of per-routine summaries for non-local (module) variables.
-Semantics: `RegionData.rexec` (= `MiniF.exec`, `rexec_ofStmt`, plus fuel-bounded `DO WHILE`;
-every theorem holds for every `fuel`).  Structure members `g%d(i)` are separate variable ids.
+bounds, DO WHILE: condition then body, and unanalysed code `RStmt.code acc body`: a CodeBlock —
+READWRITE of every name at HEAD —, an assignment whose RHS holds an expression CodeBlock, a call
+of unknown intent or of a PURE subroutine of the same container — READWRITE of the by-reference
+arguments bound to non-intent(in) dummies; READWRITE = READ;WRITE pair flagged `rw`);
+`extractTrans`/`inOutItems` = `ExtractTrans` refusal of CodeBlock/Return regions and the plain
+lists; `inputsCalls/outputsCalls` = the merge of per-routine summaries for non-local variables.
+Semantics: `RegionData.rexec` (= `MiniF.exec`, `rexec_ofStmt`, plus fuel-bounded `DO WHILE`, plus
+`code acc body` = `body`; every theorem holds for every `fuel`).  Theorems about regions that
+contain unanalysed code carry the explicit hypothesis `covered` (the code touches only what its
+access list announces; `covered_ofStmt`: trivially true without such code).
 
 Theorems
 * `C12_outputs`, `C12_outputs_region`, `C12_outputs_minif`, `C12_extract_outputs`,
-  `C12_outputs_calls` — unconditional: every variable the region can modify is an output
-  (statement lists, accepted extraction regions, regions of calls).
+  `C12_outputs_calls` — every variable the region can modify is an output (statement lists,
+  CodeBlocks, calls, accepted extraction regions, regions of kernel calls).
 * `C12_outputs_char`, `C12_inputs_char` — what the lists are.
 * `C12_statement` (replay at full strength) and `C12_inputs_statement` (every stored value is
-  determined by the recorded inputs) are FALSE of the pinned code:
+  determined by the recorded inputs) are FALSE of the code at HEAD:
   `partial_write_counterexample`, `partial_write_inputs_counterexample` (`a(1)=5; b(2)=a(2)`),
   `write_only_replay_counterexample` (`a(1)=5`), `own_bounds_counterexample` (`do i = i, 2`),
-  `codeblock_invisible_example` (CodeBlock accesses are invisible to the plain lists).
+  `section_codeblock_replay_counterexample` (`b(1:3) = (/ (t+ii, ii=1,3) /)`).
 * `C12_inputs_partial`, `C12_replay_partial`, `C12_replay_region_partial` — proved under the
   purely SYNTACTIC, decidable side conditions `WholeFirstWrites` / `OutputsDefined` (`chk`): a
   first-written variable may be read only where it is an unconditionally assigned scalar
   (earlier in an enclosing sequence, in both branches of an IF, a loop variable) or an array
   element covered by an earlier unconditional store to the textually same element, nothing its
-  index depends on having been written since.  `C12_covering_write_sufficient`,
-  `cover2_inputs_sufficient`: that criterion (what a conservative `is_written_first` could
-  check without def-use chains) is sufficient.
-* `C12_inputs_not_minimal`, `C12_inputs_not_value_minimal` — the converse is false: an input
-  need not be read on any execution (dead branch), nor influence the result.
-* `C12_extract_refuses`, `C12_extract_lists` — the refusal protects extraction regions.
+  index depends on having been written since (`chk` looks INTO unanalysed code with the recorded
+  inputs).  `C12_covering_write_sufficient`, `cover2_inputs_sufficient`.
+* `C12_code_rw_output`, `C12_codeblock_names_in_out`, `C12_codeblock_outputsDefined`,
+  `C12_codeblock_replay` — FIXED mode for `fix: every name used in a CodeBlock is reported as a
+  READWRITE access`: the names of a CodeBlock are inputs and outputs, and a region that is one
+  CodeBlock satisfies the full replay claim; `codeblock_names_example`; `callBump`.
+* `C12_inputs_not_minimal`, `C12_inputs_not_value_minimal` — the converse is false.
+* `C12_extract_refuses`, `C12_extract_lists` — the refusal of extraction regions.
 * `C12_inputs_calls_super` — merged per-routine inputs contain the inputs of the inlined region.
-Outside the theorems (differential run + gfortran oracle only): CodeBlock contents, calls of
-unknown intent (arguments READWRITE, exported as READ;WRITE), LFRic kernel call trees. -/
+Outside the theorems (differential run + gfortran oracle only): what a CodeBlock actually does
+(the harness exports CodeBlock bodies as `skip`; calls are inlined and executed by the model),
+LFRic kernel call trees. -/
 namespace C12
 open MiniF RegionData
 
